@@ -163,6 +163,9 @@ func (m *rqModel) push(c rqChunk) {
 		s = append(s, c)
 		sort.SliceStable(s, func(i, j int) bool { return s[i].fsn < s[j].fsn })
 	} else {
+		if completeByTSN(s) {
+			return // a message received completely takes nothing more (a stray fragment is dropped)
+		}
 		for _, x := range s {
 			if x.tsn == c.tsn {
 				return
@@ -314,6 +317,9 @@ func rqUniverse(idata bool, seqBase, tsnBase uint32) []rqOp {
 		mk(true, 0, 0, 5, true, true, "ua"),
 		mk(true, 1, 0, 6, true, false, "ub1"),
 		mk(true, 1, 1, 7, false, true, "ub"),
+		// a stray fragment with a TSN of its own (a peer that ignores the protocol): one more
+		// fragment for the three-fragment message, beyond its end
+		mk(false, 1, 3, 8, false, false, "sx"),
 	}
 	if !idata {
 		// unordered DATA chunks carry the SSN of the next ordered message: irrelevant, keep 0
